@@ -1354,6 +1354,17 @@ class ProgramGen:
                 fl.append(FNamed(f, e) if r.chance(2, 3) else FKey(Str(f), e))
             self.declare(V(t, "rec", mutable=False, info={"fields": fields}))
             self.feat("ctor:rec")
+            if r.chance(1, 3):
+                # round 8 (seeded change C01-m9 was missed): keyed fields FOLLOWED by positional ones and a trailing
+                # multiple-value field — the expansion goes to the next positional index, keyed fields do not count
+                self.feat("ctor:rec+multi")
+                npos = r.below(3)
+                fl = fl + [FPos(Int(40 + q)) for q in range(npos)]
+                if r.chance(1, 2):
+                    fl.insert(r.below(len(fl) + 1), FKey(Int(100), Int(0)))
+                fl.append(FPos(Call(Var("select"), Int(2), Int(10), Int(20), Int(30), Int(31))))
+                return [Local([t], [Tab(*fl)]),
+                        self.emit_stat([Ix(Var(t), Int(q)) for q in range(1, 6)] + [Un("len", Var(t))])]
             return [Local([t], [Tab(*fl)])]
         v = r.choice(vs)
         f = r.choice(v.info["fields"])
